@@ -217,8 +217,13 @@ def run(eng: Engine, ck: Check):
     pu = eng.func(TM, 'TransferManager._prioritize_uploads')
     ck.visited(pu)
     weights: dict[str, int] = {}
-    for pu_, n in [(f_, n_) for f_ in eng.scope(pu) for n_ in walk_local(f_.node)]:
+    # a key function defined inside _prioritize_uploads (`def get_rank(upload): ..; return rank` handed to sorted) computes the rank there
+    nested = [g_ for g_ in eng.repo.all_funcs() if g_.outer is pu]
+    rank_fns: set[str] = set()
+    for pu_, n in [(f_, n_) for f_ in list(eng.scope(pu)) + [g_ for g_ in nested if g_ not in eng.scope(pu)] for n_ in walk_local(f_.node)]:
         if isinstance(n, ast.AugAssign) and isinstance(n.op, ast.Add) and isinstance(cval(eng.repo, pu_, n.value), int):
+            if pu_ in nested and all(isinstance(r_.value, ast.Name) and r_.value.id == unparse(n.target) for r_ in walk_local(pu_.node) if isinstance(r_, ast.Return)):
+                rank_fns.add(pu_.name)
             gs = expanded_guards(eng, pu_, n)
             kind = None
             for e, pol, _ in gs:
@@ -261,7 +266,8 @@ def run(eng: Engine, ck: Check):
     n_desc = sum([rev_kw, reversed_call, neg_key])
     if not sort_calls:
         raise AnalysisError('R-C05-RANK: ordering idiom of _prioritize_uploads not recognised (no sort/sorted call)')
-    key_ok = all((kw(c, 'key') is not None and ('itemgetter(0)' in unparse(kw(c, 'key')) or '[0]' in unparse(kw(c, 'key')))) for c in sort_calls)
+    key_ok = all((kw(c, 'key') is not None and ('itemgetter(0)' in unparse(kw(c, 'key')) or '[0]' in unparse(kw(c, 'key')) or unparse(kw(c, 'key')) in rank_fns))
+                 for c in sort_calls)
     ck.ob('R-C05-RANK', pu, sort_calls[0], 'the result is ordered by rank, highest first', n_desc == 1 and key_ok,
           f'sort calls {[unparse(c) for c in sort_calls]}, reverse kw {rev_kw}, reversed() {reversed_call}, negated key {neg_key}',
           construct='descending by rank')
